@@ -10,8 +10,8 @@ sys.path.insert(0, os.path.dirname(os.path.abspath(__file__)))
 import vlib, pc, fam
 
 SCN_FOR = {
-    "C01": {"quick": ["A", "G", "J"], "thorough": ["A", "B", "D", "E", "F", "G", "J"]},
-    "C02": {"quick": ["B", "C", "H", "I", "J"], "thorough": ["A", "B", "C", "E", "F", "H", "I", "J"]},
+    "C01": {"quick": ["A", "G", "J", "K"], "thorough": ["A", "B", "D", "E", "F", "G", "J", "K", "L"]},
+    "C02": {"quick": ["B", "C", "H", "I", "J", "K", "L"], "thorough": ["A", "B", "C", "E", "F", "H", "I", "J", "K", "L"]},
     "C03": {"quick": ["B", "E"], "thorough": ["B", "C", "E", "F"]},
     "C05": {"quick": ["A", "D", "E", "G"], "thorough": ["A", "B", "D", "E", "F", "G"]},
 }
@@ -233,7 +233,7 @@ META_CLAUSES = {"C01": ["SerialHandlers", "SerialTerm", "AtMostOnce", "NoLoss"],
 def meta_scenarios(tier, rng):
     sc = []
     def S(**kw):
-        d = {"id": len(sc) + 1, "before": 1, "point": "", "nth": 1, "trig": 1, "during": [], "after": ["send"], "point2": "", "during2": []}
+        d = {"id": len(sc) + 1, "before": 1, "point": "", "nth": 1, "trig": 1, "during": [], "after": ["send"], "point2": "", "during2": [], "early": False, "hold": 0}
         d.update(kw); sc.append(d)
     S(); S(before=0, trig=3); S(after=["send", "fail", "send"])
     durings = [["startret"], ["starterr"], ["send"], ["send", "send"], ["exit"], ["send", "exit"], ["send", "startret"], ["fail"], ["exit", "send"]]
@@ -253,6 +253,12 @@ def meta_scenarios(tier, rng):
         for du2 in ([["startret"], ["exit"], ["send"]]):
             S(point=pt, during=["send"], point2="meta.sleep", during2=du2, after=rng.choice(afters))
             S(point=pt, during=["fail", "send"], point2="meta.term", during2=du2, after=rng.choice(afters))
+    # the Start goroutine itself caught on its way (the park is armed before the meta exists); messages arrive meanwhile, the handler
+    # of the first one is kept inside its callback until the Start goroutine has gone on
+    for pt in ("meta.start.sleep", "meta.start.spawn", "meta.start.call"):
+        for du in (["send"], ["send", "send"], ["send", "send", "send"]):
+            for hold in (0, 1):
+                S(early=True, point=pt, before=0, trig=0, during=du, hold=hold, after=rng.choice(afters))
     if tier == "thorough":
         for _ in range(300):
             S(point=rng.choice(META_POINTS), nth=rng.choice([1, 1, 2, 3]), before=rng.choice([0, 1, 2, 3]), trig=rng.choice([1, 2, 3]),
@@ -268,11 +274,12 @@ def run_meta(prop, tier, w, vh, seed):
     rng = random.Random(seed * 31 + 5)
     res = {"scenario": "META", "violations": [], "known": []}
     st = tr = 0
-    for name, mayfail, mut, invs, expect in (("pinned", "TRUE", "FALSE", ["SlotsSuffice", "SerialHandlers", "TermOnce", "Final", "NoLostWakeup"], None),
-                                             ("p15", "TRUE", "FALSE", ["SerialTerm"], "SerialTerm"),
-                                             ("sleepstore", "TRUE", "TRUE", ["SlotsSuffice", "SerialHandlers", "TermOnce", "Final"], "Final")):
+    for name, mayfail, mut, mut2, invs, expect in (("pinned", "TRUE", "FALSE", "FALSE", ["SlotsSuffice", "SerialHandlers", "TermOnce", "Final", "NoLostWakeup"], None),
+                                                   ("p15", "TRUE", "FALSE", "FALSE", ["SerialTerm"], "SerialTerm"),
+                                                   ("sleepstore", "TRUE", "TRUE", "FALSE", ["SlotsSuffice", "SerialHandlers", "TermOnce", "Final"], "Final"),
+                                                   ("initsleep", "FALSE", "FALSE", "TRUE", ["SerialHandlers"], "SerialHandlers")):
         mc = "MC_MetaCore_" + name
-        fam.write_mc(w, mc, "MetaCore", {}, {"Senders": "{s1, s2}", "Handlers": "{h1, h2, h3}", "MayFail": mayfail, "Mut_SleepStore": mut}, invariants=invs, spec="Spec")
+        fam.write_mc(w, mc, "MetaCore", {}, {"Senders": "{s1, s2}", "Handlers": "{h1, h2, h3}", "MayFail": mayfail, "Mut_SleepStore": mut, "Mut_InitSleep": mut2}, invariants=invs, spec="Spec")
         r = vlib.run_tlc(w, mc + ".tla", mc + ".cfg", workers=4, timeout=300)
         viol = re.search(r'Invariant (\w+) is violated', r.out)
         got = viol.group(1) if viol else None
